@@ -333,11 +333,8 @@ func scanGuards(p *Program) *GuardInfo {
 				return
 			}
 			if op, key, is := lockOp(&c.Call); is && op == "do" && len(c.Call.Args) == 2 {
-				switch v := c.Call.Args[1].(type) {
-				case *ssa.MakeClosure:
-					onceBody[v.Fn.(*ssa.Function)] = key
-				case *ssa.Function:
-					onceBody[v] = key
+				for _, f := range FuncValueTargets(c.Call.Args[1]) {
+					onceBody[f] = key
 				}
 			}
 		})
